@@ -175,6 +175,11 @@ func (c *cdbdriver) GetLocationByMap(ipnet *net.IPNet, mapID []byte, context Con
 		if mask > maxMask {
 			continue
 		}
+		if isv4 && mask < 96 {
+			// prefixes shorter than the IPv4-mapped prefix (e.g. ::/0) belong to
+			// IPv6 subnets, which must not match an IPv4 client
+			break
+		}
 		// Finish creating the search key:
 		// "{key_prefix}{ipv6_subnet_bitmap}"
 		currentCIDRMask := cachedCIDRMask[mask]
